@@ -171,6 +171,19 @@ def cases(rng, n_extra):
             add("index-str", "s := mkstr(3); i := %s; println(s[i])" % lit)
         add("index-array", "a := *mkarr(); i := %s(7); println(a[i])" % f)
         add("index-slice-store", "s := mk(3); i := %s(3); s[i] = 7; println(s[0])" % f)
+    # typed CONSTANT indexes (checkRange's constant branches), in range and out of range, loads and stores
+    for ct in ("uint", "uint8", "uint64", "uintptr", "int8", "int"):
+        for c in (0, 2, 3, 5):
+            add("index-const-slice", "const k %s = %d; s := mk(3); println(s[k])" % (ct, c))
+            add("index-const-str", "const k %s = %d; s := mkstr(3); println(s[k])" % (ct, c))
+            add("index-const-store", "const k %s = %d; s := mk(3); s[k] = 9; println(s[0])" % (ct, c))
+        add("index-const-aptr", "const k %s = 4; a := mkarr(); println(a[k])" % ct)
+    # constant dividends / divisors at the minInt corner
+    for (t, f, mn) in (("int8", "oi8", -128), ("int16", "oi16", -32768), ("int32", "oi32", -2147483648), ("int64", "oi64", -9223372036854775808)):
+        add("div-const-min", "const x %s = %d; y := %s(-1); println(x / y, x %% y)" % (t, mn, f))
+        add("div-const-min", "const x %s = %d; y := %s(0); println(x / y)" % (t, mn, f))
+        add("div-const-min", "const x %s = %d; y := %s(3); println(x / y, x %% y)" % (t, mn, f))
+        add("div-const-min", "x := %s(%d); println(x / -1, x %% -1)" % (f, mn))
     for (t, f) in [("uint64", "ou64"), ("int64", "oi64"), ("uint32", "ou32")]:
         big = {"uint64": "1<<63", "int64": "1<<62", "uint32": "1<<31"}[t]
         add("index-slice", "s := mk(3); i := %s(%s); println(s[i])" % (f, big))
